@@ -321,9 +321,11 @@ def lattice_rule(ctx, p, K):
     kwv = {k: norm_text(v) for k, v in wire.kw(rets[0].value).items()} if rets and isinstance(rets[0].value, ast.Call) else {}
     ctx.ob("C20.selection", mm.key, kwv == {"indices": "self.indices", "vertices": "vertices"}, where=mm, node=mm.node, construct=str(kwv), message="conversion to the vertex representation keeps the indices")
     mm = co.lookup("_vertices_and_indices")
-    txt = {norm_text(n.targets[0]): norm_text(n.value) for n in mm.body_nodes() if isinstance(n, ast.Assign)}
-    ok = txt.get("flat_triangles") == "self.triangles.reshape(-1, 2)" and txt.get("(vertices, inverse_indices)") == "np.unique(flat_triangles, axis=0, return_inverse=True)" and txt.get("indices") == "inverse_indices.reshape(-1, 3)"
-    ctx.ob("C20.selection", mm.key, ok, where=mm, node=mm.node, construct=str(txt)[:300], message="the vertex / index representation of the lattice set must describe exactly its triangles")
+    rets = wire.returns_of(mm)
+    uq = "np.unique(self.triangles.reshape(-1, 2), axis=0, return_inverse=True)"
+    got = norm_text(wire.inline_locals(mm, rets[0].value, unpack=True)) if len(rets) == 1 else "?"
+    ok = got in (f"({uq}[0], {uq}[1].reshape(-1, 3))", f"{uq}[0], {uq}[1].reshape(-1, 3)")
+    ctx.ob("C20.selection", mm.key, ok, where=mm, node=mm.node, construct=got[:300], message="the vertex / index representation of the lattice set must describe exactly its triangles")
     mm = co.lookup("containing_indices")
     rets = wire.returns_of(mm)
     ctx.ob("C20.containment", mm.key, len(rets) == 1 and wire.text_nokw(rets[0].value) == "self.with_vertices(self.vertices).containing_indices(shape)", where=mm, node=mm.node, construct=norm_text(rets[0].value) if rets else "", message="containment is decided on the same triangles in vertex form")
